@@ -183,16 +183,22 @@ def judge(case, stop_at, v, V, hooks):
     wit = {"workload": case["workload"], "backend": case["backend"], "slots": case["slots"], "stop_injected_at_step": stop_at, "phase_at_injection": v.get("phase"),
            "rows": v.get("rows"), "steps": v["steps"], "trace_tail": v["trace_tail"][-12:], "second_runner": case.get("second_runner", False)}
     alone = "" if not case.get("second_runner") else ":with-second-runner"
-    if v["error"]:
+    if v["error"] and not any(x in v["error"] for x in ("InvocationStatusTransitionError", "InvocationStatusOwnershipError")):
         V.append({"sig": "harness-error", "what": v["error"][:400], "witness": wit})
         return "error"
+    if v["error"]:
+        # the old thread of an invocation that the stop already killed and re-routed tried to write its outcome (e.g. KILLED -> RETRY from inside
+        # run()'s retry branch) and was refused: that refusal is the lifecycle doing its job, the rows below are judged as usual
+        hooks["refused_writes_of_superseded_threads"] += 1
     if not v["returned"]:
         if v["lasso"]:
             waiting_parent = any(r["status"] in ("KILLED", "REROUTED", "RUNNING") and r["claimed_by_runner"] for r in v["rows"])
             # mechanism: is the awaited sub-invocation one that nobody ever claimed (it sits in the queue and no runner is left),
             # or one that was running in this very runner and was taken away before its parent was joined?
             child_claimed = any(r["claimed_by_runner"] and r["is_child"] and r["status"] not in FINALS for r in v["rows"])
-            mech = "join-on-waiting-thread" + (":awaited-child-was-claimed-by-this-runner" if child_claimed else "")
+            # in a deeper tree the claimed child may itself be waiting for a grandchild nobody ever claimed: then the listed mechanism applies transitively
+            unclaimed_child = any(r["is_child"] and not r["claimed_by_runner"] and r["status"] not in FINALS for r in v["rows"])
+            mech = "join-on-waiting-thread" + (":awaited-child-was-claimed-by-this-runner" if child_claimed and not unclaimed_child else "")
             V.append({"sig": f"stop-never-completes:{mech}{alone}" if waiting_parent else f"stop-never-completes{alone}",
                       "what": f"stop requested at step {stop_at}: run() never returns (global state repeats over steps {v['lasso']['from_step']}..{v['lasso']['to_step']} while "
                               f"{v['lasso']['live_actors']} keep running)", "witness": {**wit, "lasso": v["lasso"]}})
